@@ -159,6 +159,35 @@ theorem source_order_clear : TaskOrder.clear = [
   ("clear", "")
 ] := by decide
 
+/-- `Inner::link_tail`: read the old tail, `list.tail := key`, `list.head := key` if the list was empty, then the item's `prev := old_tail`, `next := None`, `is_hot := HOT`, and last the old tail's `next := key` (the model: `QueueIntrusive.linkTail`, same order) -/
+theorem source_shape_queueLinkTailBody : TaskOrder.queueLinkTailBody = [
+  ("let list=ifHOT{&mutself.hot}else{&mutself.cold}", ""),
+  ("let old_tail=list.tail", ""),
+  ("list.tail=Some(key)", ""),
+  ("list.head=Some(key)", "if list.head.is_none()"),
+  ("let item=self.map.get_mut(key).expect(\"itemexists\")", ""),
+  ("item.prev=old_tail", ""),
+  ("item.next=None", ""),
+  ("item.is_hot=HOT", ""),
+  ("tail_item.next=Some(key)", "if letSome(tail_key)=old_tail&&letSome(tail_item)=self.map.get_mut(tail_key)")
+] := by decide
+
+/-- `Inner::unlink`: read the item's `(prev, next)`, `list.head := next` if it was the head, `list.tail := prev` if it was the tail, `prev.next := next`, `next.prev := prev`; the list is chosen by the const argument, NOT by `item.is_hot` (the model: `QueueIntrusive.unlink` with the same flag; unlinking with the wrong flag leaves a dead key as head/tail — `QueueIntrusive` example) -/
+theorem source_shape_queueUnlinkBody : TaskOrder.queueUnlinkBody = [
+  ("let list=ifHOT{&mutself.hot}else{&mutself.cold}", ""),
+  ("let (prev,next)={letitem=self.map.get(key).expect(\"itemexists\");debug_assert_eq!(item.is_hot,HOT);(item.prev,item.next)}", ""),
+  ("list.head=next", "if list.head==Some(key)"),
+  ("list.tail=prev", "if list.tail==Some(key)"),
+  ("prev_item.next=next", "if letSome(prev_key)=prev&&letSome(prev_item)=self.map.get_mut(prev_key)"),
+  ("next_item.prev=prev", "if letSome(next_key)=next&&letSome(next_item)=self.map.get_mut(next_key)")
+] := by decide
+
+/-- `Iter::next` of `iter_hot`: yield `curr` after PREFETCHING `curr := next_hot(curr)` (the model: `tickLoop` takes `nextHot e.hot id` before the loop body; `QueueIntrusive.iterNext`) -/
+theorem source_shape_queueNextBody : TaskOrder.queueNextBody = [
+  ("let curr=self.curr?", ""),
+  ("self.curr=self.queue.next_hot(curr)", "")
+] := by decide
+
 /-- `Remote::poll`: BOTH `finish_setting_waker::<true>()` call sites (the one that leaves an up-to-date waker in place
 and the one that has just installed a new waker) bind the returned snapshot and go round the loop again when it
 says completed or cancelled — the executor, seeing SETTING_WAKER, skipped the wake-up. This is the premise of
